@@ -154,6 +154,30 @@ CLAIMED = {
        "Function::create_call vs. the in-language call (admissibility and result).",
   note=SPEC_NOTE + " The incremental route may accept more programs (it sees values): only boundaries where both routes complete are compared.",
   technique="Lean 4 proof (batch = incremental for every split) + REPL/batch, re-exec and host-call oracles", ref="DESIGN.md §6 C17"),
+ "C05": dict(
+  text="Lean 4 theorems over the Ty model, where the order of a union's member list / a struct's field list stands for the hash "
+       "iteration order of one instance: == gives `true` between a well-formed union (struct) and every permutation of it; "
+       "matches is invariant under permutation of union members on either side; equal unions / structs have equal sizes and key "
+       "sets (what their Hash implementations feed to the hasher); the all-based queries are order independent. Fold-based "
+       "queries and program-level determinism are NOT proved: for the running code they are decided by repetition - K+1 fresh "
+       "parses per type (pairwise ==, matches, one HashSet entry, mut-wrapped match) and K parse+run repetitions of each "
+       "program in one process plus two more processes, outcomes canonicalised, on 8 hash-order-sensitive program families "
+       "and general generated programs.",
+  note="Lean kernel; the Ty model is hand-written (tied by the C10 type stream); only hash order is addressed as a source of nondeterminism "
+       "(the language has no clock / random source besides std I/O); repetition samples hash seeds, it does not enumerate them.",
+  technique="Lean 4 proof (permutation invariance of the type algebra) + repetition oracle in and across processes", ref="DESIGN.md §6 C05"),
+ "C15": dict(
+  text="Lean 4 model of Display for Type (token printer on the given member order + renderer) and of the grammar's type rules "
+       "(lexer + recursive-descent parser building unions with concat). Proved: unions are parenthesised exactly as function "
+       "results and as mut contents and printed bare as array elements, parameters and struct fields; `[]` <-> array of `!`; "
+       "separators; round trip of the six base types and of `()` (unless followed by `->`) in any context. The round trip for ALL "
+       "types is NOT yet proved: it is checked in both directions between model and implementation on generated types - the "
+       "implementation's prints (several hash orders) read by the model parser, the model's print checked on each instance's own "
+       "order and its shuffled-order prints read by the implementation - plus the implementation's own oracle "
+       "from_str(to_string(t)) == t and the internal re-parse path of `it ? T`.",
+  note="Lean kernel; printer / parser models are hand-written (tied by the two-way correspondence); 0- and 1-tuples have no syntax; the model "
+       "lexer rejects characters outside the printed alphabet where the scannerless grammar would stop (only printed types are compared).",
+  technique="Lean 4 model of printer and parser with partial round-trip theorems + two-way print/parse correspondence", ref="DESIGN.md §6 C15"),
 }
 NOT_YET = "machinery for this property is not built yet in this round (planned, see DESIGN.md §6)"
 
